@@ -51,6 +51,7 @@ var sleeps = []time.Duration{200 * time.Microsecond, 500 * time.Microsecond, tim
 const maxDelay = 4 * time.Millisecond
 
 func body(s *simrt.Sim, tier string) {
+	t0 := time.Now()
 	nclients := 2 + s.Choose(2, "clients")
 	maxOps := 4
 	if tier == "thorough" {
@@ -90,6 +91,8 @@ func body(s *simrt.Sim, tier string) {
 	}
 
 	var closeInvoke, closeReturn uint64
+	inCallback := 0
+	var cbTime time.Duration // total time spent inside callbacks (they delay the items behind them)
 	p := queue.NewProcessor[string, *item](func(it *item) {
 		it.execs++
 		if it.execs == 1 {
@@ -100,8 +103,25 @@ func body(s *simrt.Sim, tier string) {
 		if closeReturn != 0 {
 			s.Fail("exec-after-close", fmt.Sprintf("item i%d executed at step %d after Close returned at step %d", it.id, s.Stamp(), closeReturn))
 		}
+		inCallback++
 		s.Yield("callback")
+		if s.Choose(4, "cb.slow") == 0 {
+			s.Sleep(300 * time.Microsecond) // a callback that takes a while: Close must wait for it
+			cbTime += 300 * time.Microsecond
+		}
+		inCallback--
 	})
+	// closeOnce is what every Close caller does: on return no callback may be running
+	closeOnce := func(who string) {
+		p.Close()
+		if inCallback > 0 {
+			s.Fail("close-returned-during-callback", fmt.Sprintf("Close (%s) returned while a callback is still running", who))
+		}
+		if closeReturn == 0 {
+			closeReturn = s.Stamp()
+		}
+		s.Yield("close.ret")
+	}
 
 	var names []string
 	for c := range ops {
@@ -137,11 +157,16 @@ func body(s *simrt.Sim, tier string) {
 			s.Sleep(sleeps[s.Choose(len(sleeps), "closeAt")])
 			closeInvoke = s.Stamp()
 			s.Logf("close")
-			p.Close()
-			s.Yield("close.ret")
-			closeReturn = s.Stamp()
+			closeOnce("closer")
 		})
 		names = append(names, "closer")
+		if s.Choose(2, "closer2") == 0 {
+			s.Go("closer2", func() {
+				s.Sleep(sleeps[s.Choose(len(sleeps), "closeAt2")])
+				closeOnce("closer2")
+			})
+			names = append(names, "closer2")
+		}
 	}
 	if !s.Join(time.Hour, names...) {
 		s.Fail("hang", "clients did not finish within 1h of simulated time (Enqueue/Dequeue/Close blocked)\n"+s.Dump())
@@ -221,8 +246,8 @@ func body(s *simrt.Sim, tier string) {
 			if x.enqReturnTime.After(due) {
 				due = x.enqReturnTime
 			}
-			if late := x.execTime.Sub(due); late > maxDelay+time.Microsecond {
-				s.Fail("late", fmt.Sprintf("item i%d executed %v after it was due (only %v of delay was injected at most)", x.id, late, maxDelay))
+			if late := x.execTime.Sub(due); late > maxDelay+cbTime+time.Microsecond {
+				s.Fail("late", fmt.Sprintf("item i%d executed %v after it was due (only %v of delay was injected at most, callbacks took %v)", x.id, late, maxDelay, cbTime))
 			}
 		}
 	}
@@ -233,7 +258,7 @@ func body(s *simrt.Sim, tier string) {
 				continue
 			}
 			if a.execStep < b.execStep && a.t.Sub(b.t) >= time.Millisecond && !b.enqReturnTime.After(b.t) && b.enqReturn != 0 && b.enqReturn < a.execStep {
-				s.Fail("order", fmt.Sprintf("item i%d (T=%v) ran before i%d (T=%v) which was queued in time", a.id, a.t.Sub(time.Time{}), b.id, b.t.Sub(time.Time{})))
+				s.Fail("order", fmt.Sprintf("item i%d (T=%v) ran before i%d (T=%v) which was queued in time", a.id, a.t.Sub(t0), b.id, b.t.Sub(t0)))
 			}
 		}
 	}
@@ -242,12 +267,9 @@ func body(s *simrt.Sim, tier string) {
 		return
 	}
 	if !closeRace {
-		s.Go("closer", func() {
-			p.Close()
-			s.Yield("close.ret")
-			closeReturn = s.Stamp()
-		})
-		if !s.Join(time.Hour, "closer") {
+		s.Go("closer", func() { closeOnce("closer") })
+		s.Go("closer2", func() { closeOnce("closer2") })
+		if !s.Join(time.Hour, "closer", "closer2") {
 			s.Fail("close-hang", "Close did not return\n"+s.Dump())
 			return
 		}
